@@ -12,6 +12,16 @@ value), stores into the output arrays (flat index -> value), the array accesses 
 value.  No path feasibility is decided beyond linear integer arithmetic on the path's own tests (Fourier-Motzkin on a handful of
 constraints): both outcomes of every data-dependent test are followed.
 
+Control state (pass 3).  Locals that only ever hold constants (False / True / small integers / truth values such as `flag = X < Y`) are
+*control flags*: a loop head is a cut point together with ONE setting of the flags that are live there - the setting under which the loop
+iterates, found by a first execution in which every (head, setting) pair is a cut point; a path that arrives under another setting (the flag
+that replaces a `break`, a `more` flag cleared after the last point, a first-pass flag) simply runs on through the head.  Flags whose head
+iterates under several settings stay integer state variables.  `goto` continues at its label when the label is in an enclosing block; a
+call of a helper that contains loops is expanded in place when the helper has one final `return`; a data-dependent test made twice on a
+path has one outcome.  `merge_exits` composes every counter-only way out of a loop into the transitions that arrive at the head (top-tested,
+bottom-tested, tested before entering and flag-steered loops become the same system), `peel_entry` composes what the constant entry state
+decides.
+
 `normalise` then brings a transition system to a form in which two implementations of the same automaton are syntactically equal
 up to the names of their state variables:
   * arrays are named by role (input / value stack / position stack / 3-column output / 2-column output),
@@ -19,10 +29,13 @@ up to the names of their state variables:
   * every integer state variable v is re-parametrised v = c0 + g*v' (c0 = its value on entry of the loop nest, g = gcd of its
     increments): stack index j / stack size sp, fullcyclesp1 / fullcycles, row index n from -1 or 0, an output cursor advancing by
     3 doubles per row all become the same counter,
-  * integer state variables that are provably equal (two output cursors) are merged, dead variables are dropped,
+  * integer state variables that are provably equal (two output cursors) are merged, a counter that continues another one under a new
+    name (a helper's parameter) is renamed to it, dead variables are dropped,
   * `x / 2^k` is `2^-k * x` (exact in IEEE arithmetic); `+` and `*` commute; nothing else is re-associated.
 `compare` matches two normal forms transition by transition: every pair of paths whose guards are jointly satisfiable must go to the
-same cut point with the same effect.
+same cut point with the same effect (data-dependent tests are identified under the equalities the two guards imply).  Success proves
+equality; a failure is only a candidate difference - the rules of c05sem report a VIOLATION when c05_world finds an input on which the two
+programs return different tables, and an analysis error otherwise.
 """
 from __future__ import annotations
 
@@ -299,29 +312,126 @@ class Exec:
         self.int_decl = dict(getattr(self.f, "ctypes", {}) or {})
         self.is_c = isinstance(unit, R.CUnit)
         self.params = [p[0] for p in self.f.params]
-        self.boolvars = control_flags(self.f)      # locals that only ever hold False / True / small integer constants / truth values
-        self._infer_ints()
-        for i, (s, depth, parent) in enumerate(R.loops_of(self.f.body)):
-            self.loop_ids[id(s)] = f"H{i + 1}"
-        self.loops = R.loops_of(self.f.body)
         self.ncall = 0
         self.opaque = set()        # functions of the unit that are NOT followed (entry mode: the kernels)
         self._rot, self._orig, self._keep = {}, {}, []      # bottom-tested loops read as top-tested ones (see _rotated)
-        self.fn_names = set(getattr(self.f, "locals", ())) | {p[0] for p in self.f.params}
-        self.frozen = {p[0] for p in self.f.params} - R.assigned_vars(self.f.body)     # parameters that keep their value throughout
         self.lengths = {}          # array base -> Aff: its number of elements (allocations; the input array when `array_len` names the length parameter)
         self.array_len = dict(array_len or {})
         self.limit = 4000
         self.steps = 0
         # control flags (see control_flags): `probe` = every (loop head, setting of its live flags) is its own cut point; otherwise a head
         # is cut only under its `primary` setting and a path that arrives under another one runs on through the head
-        self.flags = set(self.boolvars) - set(nofold or ())
-        self.flag_live = flag_liveness(self.f.body, self.flags) if self.flags else {}
         self.nofold = set(nofold or ())      # flags kept as ordinary integer state variables (their heads iterate under several settings)
         self.probe = probe
         self.primary = dict(primary or {})
         self.settings = {}         # probe: loop id -> {composite cut point name: setting}
         self.folded = []           # notes: which flags were folded into which head
+        self.body = None
+        self._setup_body(expand=False)
+
+    def _setup_body(self, expand=True):
+        """everything that depends on the statements executed: the function's own body, with the calls of helper functions that contain loops
+        expanded in place (`expand`; done when the run starts, once the set of functions that are not followed is known)"""
+        self.inlined = []
+        self.body = self._expand(self.f.body, 0) if expand else self.f.body
+        shim = type("Fn", (), dict(params=self.f.params, body=self.body))
+        self.boolvars = control_flags(shim)      # locals that only ever hold False / True / small integer constants / truth values
+        self._infer_ints()
+        self.loop_ids = {}
+        for i, (s, depth, parent) in enumerate(R.loops_of(self.body)):
+            self.loop_ids[id(s)] = f"H{i + 1}"
+        self.loops = R.loops_of(self.body)
+        self.fn_names = set(getattr(self.f, "locals", ())) | {p[0] for p in self.f.params} | R.assigned_vars(self.body)
+        self.frozen = {p[0] for p in self.f.params} - R.assigned_vars(self.body)     # parameters that keep their value throughout
+        self.flags = set(self.boolvars) - self.nofold
+        self.flag_live = flag_liveness(self.body, self.flags) if self.flags else {}
+
+    def _expand(self, stmts, depth):
+        out = []
+        for s in stmts:
+            call, lv = None, None
+            if s[0] == "set" and s[2][0] == "call":
+                call, lv = s[2], s[1]
+            elif s[0] == "expr" and s[1][0] == "call":
+                call = s[1]
+            elif s[0] == "unpack" and s[2][0] == "call":
+                call, lv = s[2], ("tuple", list(s[1]))
+            if call is not None and call[1] not in self.opaque and depth < 3:
+                h = self.unit.helper(call[1]) if hasattr(self.unit, "helper") else None
+                if h is not None and h is not self.f and any(x[0] == "loop" for x in R.walk_ir(h.body)):
+                    inl = self._inline_ir(h, call, lv)
+                    if inl is not None:
+                        out.extend(self._expand(inl, depth + 1))
+                        continue
+            if s[0] == "if":
+                out.append(("if", s[1], self._expand(s[2], depth), self._expand(s[3], depth)))
+            elif s[0] == "loop":
+                out.append(("loop", s[1], self._expand(s[2], depth), self._expand(s[3], depth)))
+            else:
+                out.append(s)
+        return out
+
+    def _inline_ir(self, h, call, lv):
+        """the statements of helper h with its parameters bound to the arguments of `call` and its single, final `return e` turned into the
+        assignment `lv = e`; None when the helper does not have that shape (it is then executed as a call: loops inside are not supported)"""
+        names = [a[0] for a in h.params]
+        args, kw = call[2], call[3]
+        if len(args) > len(names) or any(n not in names for n in kw):
+            return None
+        bound = dict(zip(names, args))
+        for n, v in kw.items():
+            if n in bound:
+                return None
+            bound[n] = v
+        for n in names:
+            if n not in bound:
+                d = getattr(h, "defaults", {}).get(n)
+                if d is None:
+                    return None
+                bound[n] = R.PyFunc.expr(h, d)
+        body = list(h.body)
+        rets = [x for x in R.walk_ir(body) if x[0] == "return"]
+        ret_e = None
+        if rets:
+            if len(rets) != 1 or body[-1] is not rets[0]:
+                return None
+            ret_e = rets[0][1]
+            body = body[:-1]
+        if any(x[0] in ("goto", "label") for x in R.walk_ir(body)):
+            return None
+        self.ncall += 1
+        local = set(names) | R.assigned_vars(body)
+        taken = set(getattr(self.f, "locals", ())) | {p[0] for p in self.f.params} | R.assigned_vars(self.f.body)
+        mp = {}
+        for n in sorted(local):
+            new = f"{n}_{h.name.strip('_')}{self.ncall}"
+            if new in taken:
+                return None
+            mp[n] = new
+        out = [("set", ("var", mp[n]), bound[n]) for n in names]
+        out += rename_ir(body, mp)
+        if lv is not None:
+            if ret_e is None:
+                return None
+            ret_e = rename_ir([("expr", ret_e)], mp)[0][1]
+            if lv[0] == "tuple":
+                # `a, b = helper(...)` with `return x, y`: all right-hand sides first, then the stores
+                if ret_e[0] != "tuple" or len(ret_e[1]) != len(lv[1]):
+                    return None
+                tmps = []
+                for i, e in enumerate(ret_e[1]):
+                    t = ("var", f"%r{self.ncall}_{i}")
+                    out.append(("set", t, e))
+                    tmps.append(t)
+                out += [("set", x, t) for x, t in zip(lv[1], tmps)]
+            else:
+                out.append(("set", lv, ret_e))
+        for n, new in mp.items():
+            cls = getattr(h, "ctypes", {}).get(n)
+            if cls is not None:
+                self.int_decl[new] = cls
+        self.inlined.append(h.name)
+        return out
 
     # ---- typing
     def _infer_ints(self):
@@ -336,7 +446,7 @@ class Exec:
             if k == "int" and i < len(self.params):
                 self.ints.add(self.params[i])
         assigns = {}
-        for s in R.walk_ir(self.f.body):
+        for s in R.walk_ir(self.body):
             if s[0] == "set" and s[1][0] == "var":
                 assigns.setdefault(s[1][1], []).append(s[2])
         # greatest fixpoint: every assigned scalar is an integer until one of its assignments is not an integer expression of integers
@@ -919,7 +1029,7 @@ class Exec:
                     del q.env[n]
             q.depth -= 1
             kret(q, v)
-        K = dict(fall=lambda q: done(q, ("null",)), brk=None, cont=None, ret=done)
+        K = dict(fall=lambda q: done(q, ("null",)), brk=None, cont=None, ret=done, labels={})
         self.block(body, p, K)
 
     # ---- statements (continuation passing: K = dict(fall, brk, cont, ret))
@@ -929,6 +1039,14 @@ class Exec:
         self.steps += 1
         if self.steps > 200000:
             raise Unsupported("symbolic execution does not terminate")
+        # labels of this statement list: a `goto` from anywhere inside goes on with the statements after the label, in this list's context
+        known = K.get("labels") or {}
+        here = [(i, x[1]) for i, x in enumerate(stmts) if x[0] == "label" and x[1] not in known]
+        if here:
+            labels = dict(known)
+            K = dict(K, labels=labels)
+            for i, name in here:
+                labels[name] = (lambda q, i=i, K=K: self.block(stmts[i + 1:], q, K))
         s, rest = stmts[0], stmts[1:]
         if s[0] in ("set", "unpack", "expr", "return", "raise", "if"):
             s2 = hoist_cond(s)
@@ -977,7 +1095,13 @@ class Exec:
                     v = self.ev(e, p)
             return self.finish(p, RAISE, exc=v)
         if k == "goto":
-            return self.finish(p, FAIL, exc=("goto", s[1]))
+            target = (K.get("labels") or {}).get(s[1])
+            if target is None:
+                raise Unsupported(f"goto {s[1]}: the label is not in an enclosing block")
+            p.passes += 1
+            if p.passes > 12:
+                raise Unsupported(f"a path takes more than 12 jumps (goto {s[1]})")
+            return target(p)
         if k == "label":
             return nxt(p)
         if k == "loop":
@@ -1104,6 +1228,9 @@ class Exec:
                         return self.fork_int(p, ("ige", -d - 1), kt, kf)
                     if op == "<=":
                         return self.fork_int(p, ("ige", -d), kt, kf)
+            for a0, tk in p.key:
+                if a0 == v or (p.subst and a0[0] not in ("ige", "ieq") and self._under_subst(a0, p) == v):
+                    return kt(p) if tk else kf(p)          # the same test of the same values made again on this path: the same outcome
             t, f = p, p.fork()
             t.key.append((v, True))
             f.key.append((v, False))
@@ -1111,11 +1238,26 @@ class Exec:
             return kf(f)
         if self.is_int(v) and self.aff(v) is not None:
             return self.fork_int(p, ("ieq", self.aff(v)), kf, kt)      # truth of an integer: v != 0
+        for a0, tk in p.key:
+            if a0 == ("truth", v):
+                return kt(p) if tk else kf(p)
         t, f = p, p.fork()
         t.key.append((("truth", v), True))
         f.key.append((("truth", v), False))
         kt(t)
         return kf(f)
+
+    def _under_subst(self, e, p):
+        """a value computed earlier on the path in the spelling it has after the equalities the path has learned since (`j == 2`)"""
+        def fa(a):
+            for var, val in p.subst.items():
+                if var in a.c:
+                    a = a.subs(var, val)
+            return a
+        try:
+            return map_value(e, fa, self)
+        except Unsupported:
+            return e
 
     def fork_int(self, p, atom, kt, kf):
         kind, d = atom
@@ -1420,12 +1562,13 @@ class Exec:
                                    f"({'; '.join(sorted(x.split('#', 1)[1] for x in rec))}): kept as state variables, not folded into the control state")
                 self.nofold |= drop
                 self.flags -= drop
-                self.flag_live = flag_liveness(self.f.body, self.flags) if self.flags else {}
+                self.flag_live = flag_liveness(self.body, self.flags) if self.flags else {}
                 self.primary = {}
                 return False
         return True
 
     def run(self, args=None):
+        self._setup_body(expand=True)
         for _ in range(4):
             if not (self.flags and not self.probe and not self.primary and any(self.flag_live.values())):
                 break
@@ -1448,7 +1591,7 @@ class Exec:
             else:
                 p.env[nm] = ("opq", "param", (("str", nm),), "any")
         K = dict(fall=lambda q: self.finish(q, END, ret=("null",)), brk=None, cont=None, ret=lambda q, v: self.finish(q, END, ret=v))
-        self.block(self.f.body, p, K)
+        self.block(self.body, p, K)
         return self
 
 
@@ -2351,10 +2494,56 @@ def _decided_dropped(key, ex):
     return out
 
 
+def coalesce_copies(ts):
+    """a counter w that comes into being as a copy of another counter v (`n` handed to a helper that goes on counting in its own parameter;
+    `top = j` before a later loop), possibly advanced on the way (v + c), while v itself is no longer live where w lives, IS v under another
+    name: w is renamed to v.  Only names change."""
+    ex = ts.ex
+    for _ in range(8):
+        done = False
+        for w in ts.int_vars():
+            nodes_w = [n for n in ts.nodes if w in ts.state.get(n, {})]
+            entries = [t for t in ts.trans if t["dst"] in nodes_w and w not in ts.state.get(t["src"], {})]
+            if not nodes_w or not entries:
+                continue
+            srcs = set()
+            for t in entries:
+                x = t["scal"].get(w)
+                a = ex.aff(x) if x is not None and ex.is_int(x) else None
+                if a is None or len(a.c) != 1 or list(a.c.values())[0] != 1:
+                    srcs = None
+                    break
+                srcs.add(next(iter(a.c)))
+            if not srcs or len(srcs) != 1:
+                continue
+            v = next(iter(srcs))
+            if v == w or v in ex.params or any(v in ts.state.get(n, {}) for n in nodes_w) or not all(v in ts.state.get(t["src"], {}) for t in entries):
+                continue
+            mp = {w: ("var", v)}
+            out = []
+            for t in ts.trans:
+                t2 = map_trans(t, lambda x: subst_vars(x, mp, ex), ts) if t["src"] in nodes_w else dict(t)
+                if w in t2["scal"]:
+                    sc = dict(t2["scal"])
+                    sc[v] = sc.pop(w)
+                    t2["scal"] = sc
+                out.append(t2)
+            ts.trans = out
+            for n in nodes_w:
+                ts.state[n][v] = ts.state[n].pop(w)
+            ts.notes.append(f"{w} is {v} under another name from {nodes_w[0]} on (initialised from it, {v} is not used there any more); renamed")
+            done = True
+            break
+        if not done:
+            break
+    return ts
+
+
 def normalise(ts, with_ret=False, parent=None):
     ts = ts.copy()
     eliminate_caches(ts)
     drop_dead(ts, with_ret)
+    coalesce_copies(ts)
     reparametrise(ts)
     retime(ts, parent if parent is not None else {"H2": "H1"})
     merge_equal(ts)
